@@ -59,7 +59,25 @@ fn n_mktable(vm: &mut Vm<Aux>, v: Value) -> Result<Value, ExecutionErrorPayload>
     Ok(Value::Object(t.into_inner()))
 }
 
+pub fn parse_sched(a: &[&str]) -> cao_lang::verif::GcSchedule {
+    use cao_lang::verif::GcSchedule;
+    match a.iter().find_map(|x| x.strip_prefix("sched=")) {
+        Some("every") => GcSchedule::Every,
+        Some(v) if v.starts_with("single:") => GcSchedule::Single(v[7..].parse().unwrap_or(0)),
+        Some(v) if v.starts_with("mask:") => GcSchedule::Mask(u64::from_str_radix(&v[5..], 16).unwrap_or(0)),
+        _ => GcSchedule::None,
+    }
+}
+
+/// the part of an observation that must not depend on when collections run
+pub fn obs_part(full: &str) -> String {
+    full.split(" alloc=").next().unwrap_or("").to_string()
+}
+
 pub fn new_vm(mem: usize, stack: usize, calls: usize) -> Vm<'static, Aux> {
+    // swept objects are poisoned and quarantined instead of freed: a use-after-sweep becomes an
+    // observable wrong value instead of undefined behaviour
+    cao_lang::verif::set_quarantine(true);
     let mut vm = Vm::new(Vec::new()).unwrap();
     vm.runtime_data = RuntimeData::new(mem, stack, calls).unwrap();
     vm.register_native_function("log", into_f1(n_log)).unwrap();
@@ -151,6 +169,8 @@ impl Engine for VmEngine {
             // error inside a nested card: trace must name the failing card (F14)
             run("setglobal($67,callnative($6661696c,[]))", ""),
             run("setglobal($67,callnative($6e6f7065,[int(#1)]))", ""),
+            // nested budget (F9): a sort whose key function loops; the whole run has one budget
+            vec!["vm new".to_string(), "vm run mod([],[fn($6d61696e,[],[setvar($74,array([int(#3),int(#1),int(#2),int(#5),int(#4)])),setglobal($67,call($7374642e736f727465645f62795f6b6579,[closure([$6b6579,$76616c],[setvar($63,int(#0)),while(less(readvar($63),int(#20)),composite($5f,[setvar($63,add(readvar($63),int(#1)))])),return(readvar($76616c))]),readvar($74)]))])],[]) budget=150".to_string(), "vm run mod([],[fn($6d61696e,[],[setglobal($67,int(#1))])],[]) budget=0".to_string()],
         ]
     }
 
@@ -160,6 +180,7 @@ impl Engine for VmEngine {
 
     fn run_impl(&self, ops: &[String], out: &mut Vec<String>) {
         let mut vm: Option<Vm<Aux>> = None;
+        let mut cfg = (409600usize, 256usize, 256usize);
         for op in ops {
             let a: Vec<&str> = op.split(' ').skip(1).collect();
             let line = match (a[0], vm.as_mut()) {
@@ -168,7 +189,8 @@ impl Engine for VmEngine {
                     if stack == 0 {
                         "bad-op".to_string()
                     } else {
-                        vm = Some(new_vm(kv(&a, "mem", 409600), stack, kv(&a, "calls", 256)));
+                        cfg = (kv(&a, "mem", 409600), stack, kv(&a, "calls", 256));
+                        vm = Some(new_vm(cfg.0, cfg.1, cfg.2));
                         "ok".into()
                     }
                 }
@@ -179,8 +201,34 @@ impl Engine for VmEngine {
                         Ok(prog) => {
                             vm.max_instr = kv(&a, "budget", 1000) as u64;
                             vm.get_aux_mut().clear();
+                            cao_lang::verif::set_gc_schedule(parse_sched(&a));
                             let res = vm.run(&prog);
-                            show_outcome(vm, &prog, &res)
+                            let (allocs, forced) = cao_lang::verif::gc_schedule_stats();
+                            cao_lang::verif::set_gc_schedule(cao_lang::verif::GcSchedule::None);
+                            format!("{} gcs={forced}/{allocs}", show_outcome(vm, &prog, &res))
+                        }
+                    },
+                },
+                ("schedcheck", _) => match parse_module(a[1]) {
+                    None => "bad-op".into(),
+                    Some(m) => match compile(m, None) {
+                        Err(e) => format!("compile-{}", show_cerr(&e)),
+                        Ok(prog) => {
+                            let budget = kv(&a, "budget", 1000) as u64;
+                            let mut va = new_vm(cfg.0, cfg.1, cfg.2);
+                            va.max_instr = budget;
+                            cao_lang::verif::set_gc_schedule(cao_lang::verif::GcSchedule::None);
+                            let ra = va.run(&prog);
+                            let oa = show_outcome(&va, &prog, &ra);
+                            let mut vb = new_vm(cfg.0, cfg.1, cfg.2);
+                            vb.max_instr = budget;
+                            cao_lang::verif::set_gc_schedule(parse_sched(&a));
+                            let rb = vb.run(&prog);
+                            let (allocs, forced) = cao_lang::verif::gc_schedule_stats();
+                            cao_lang::verif::set_gc_schedule(cao_lang::verif::GcSchedule::None);
+                            let ob = show_outcome(&vb, &prog, &rb);
+                            let alloc_of = |o: &str| o.split(" alloc=").nth(1).and_then(|x| x.split(' ').next()).unwrap_or("?").to_string();
+                            format!("A={{{}}} B={{{}}} gcs={forced}/{allocs} allocA={} allocB={}", obs_part(&oa), obs_part(&ob), alloc_of(&oa), alloc_of(&ob))
                         }
                     },
                 },
@@ -203,9 +251,43 @@ impl Engine for VmEngine {
         }
     }
 
+    /// oracle: the observable outcome must not depend on the collection schedule (C02), and the
+    /// number of dispatched instructions never exceeds the budget (C03)
+    fn run_spec(&self, ops: &[String], impl_out: &[String]) -> Option<Vec<String>> {
+        let mut out = vec![];
+        for (o, r) in ops.iter().zip(impl_out.iter()) {
+            if o.starts_with("vm schedcheck") && r.starts_with("A={") {
+                let a = r.split("A={").nth(1).and_then(|x| x.split("} B={").next()).unwrap_or("");
+                let b = r.split("} B={").nth(1).and_then(|x| x.split("} gcs=").next()).unwrap_or("");
+                // machine resources may be hit at different points under different schedules only
+                // through the memory limit; everything else must be identical
+                if a == b {
+                    out.push(r.clone());
+                } else {
+                    out.push(format!("schedule-dependent outcome: without forced collections {{{a}}}"));
+                }
+            } else if o.starts_with("vm run") && r.contains(" disp=") {
+                let budget: u64 = o.split(' ').find_map(|x| x.strip_prefix("budget=")).and_then(|v| v.parse().ok()).unwrap_or(1000);
+                let disp: u64 = r.split(" disp=").nth(1).and_then(|x| x.split(' ').next()).and_then(|v| v.parse().ok()).unwrap_or(0);
+                if disp <= budget.max(1) { out.push("?".into()) } else { out.push(format!("dispatched {disp} instructions with budget {budget}")) }
+            } else {
+                out.push("?".into());
+            }
+        }
+        Some(out)
+    }
+
     fn tags(&self, ops: &[String], impl_out: &[String]) -> Vec<String> {
         let mut t = std::collections::BTreeSet::new();
         for (o, r) in ops.iter().zip(impl_out.iter()) {
+            if o.starts_with("vm schedcheck") {
+                t.insert("op:schedcheck".to_string());
+                if let Some(g) = r.split(" gcs=").nth(1).and_then(|x| x.split('/').next()) {
+                    if g != "0" {
+                        t.insert("hit:forced-gc".into());
+                    }
+                }
+            }
             if o.starts_with("vm run") {
                 let res = r.split(' ').next().unwrap_or("");
                 let res = res.split('(').next().unwrap_or("");
@@ -223,6 +305,73 @@ impl Engine for VmEngine {
         t.into_iter().collect()
     }
 
+    fn nontrivial(&self, ops: &[String], _o: &[String]) -> bool {
+        ops.iter().any(|o| o.len() > 150)
+    }
+}
+
+/// Engine `gc`: schedule independence (C02) and exact model correspondence under forced
+/// collections. Every case runs one program without forced collections and under a schedule
+/// (every allocation / one single allocation / a random subset), with swept objects quarantined.
+pub struct GcEngine;
+
+impl Engine for GcEngine {
+    fn name(&self) -> &'static str {
+        "gc"
+    }
+    fn gen(&self, rng: &mut Rng, tier: Tier, idx: usize) -> Vec<String> {
+        let mem = if idx % 5 == 4 { *rng.pick(&[3000usize, 6000, 12000]) } else { 409600 };
+        let mut ops = vec![format!("vm new mem={mem} stack=256 calls=256")];
+        let size = if tier == Tier::Quick { rng.range(2, 6) } else { rng.range(2, 9) } as usize;
+        let ws = rng.chance(1, 2);
+        let m = gen_alloc_program(rng, size, ws);
+        let t = module_tok(&m);
+        let n = if tier == Tier::Quick { 3 } else { 6 };
+        ops.push(format!("vm schedcheck {t} budget=3000 sched=every"));
+        for _ in 0..n {
+            let sched = match rng.below(3) {
+                0 => format!("single:{}", rng.below(40)),
+                _ => format!("mask:{:x}", rng.next()),
+            };
+            ops.push(format!("vm schedcheck {t} budget=3000 sched={sched}"));
+        }
+        ops
+    }
+    fn corpus(&self) -> Vec<Vec<String>> {
+        let run = |cards: &str, extra: &str| {
+            let m = format!("mod([],[fn($6d61696e,[],[{cards}]){extra}],[])");
+            vec!["vm new".to_string(), format!("vm schedcheck {m} budget=3000 sched=every"), format!("vm schedcheck {m} budget=3000 sched=single:3")]
+        };
+        vec![
+            // SetProperty on a table that only lives on the stack, with a fresh string key
+            run("setvar($74,table),setprop(str($76616c),readvar($74),str($6b6579)),setglobal($67,readvar($74))", ""),
+            // inline closure called while allocating in its body
+            run("setvar($78,int(#5)),setglobal($67,dyncall([str($6162)],closure([$61],[setvar($74,array([readvar($61),readvar($78),str($7a)])),return(readvar($74))])))", ""),
+            // sort with a key function that allocates
+            run("setvar($74,array([int(#3),int(#1),int(#2)])),setglobal($67,call($7374642e736f727465645f62795f6b6579,[closure([$6b6579,$76616c],[return(callnative($6d6b7461626c65,[readvar($76616c)]))]),readvar($74)]))", ""),
+            run("setvar($74,array([int(#3),int(#1),int(#2)])),setglobal($67,call($7374642e6d696e,[readvar($74)])),setglobal($68,get(readvar($74),int(#1)))", ""),
+        ]
+    }
+    fn timeout(&self) -> std::time::Duration {
+        std::time::Duration::from_secs(30)
+    }
+    fn run_impl(&self, ops: &[String], out: &mut Vec<String>) {
+        VmEngine.run_impl(ops, out)
+    }
+    fn run_spec(&self, ops: &[String], impl_out: &[String]) -> Option<Vec<String>> {
+        VmEngine.run_spec(ops, impl_out)
+    }
+    fn tags(&self, ops: &[String], impl_out: &[String]) -> Vec<String> {
+        let mut t: Vec<String> = VmEngine.tags(ops, impl_out);
+        for r in impl_out {
+            if r.contains("err:OutOfMemory") {
+                t.push("hit:oom".into());
+            }
+        }
+        t.sort();
+        t.dedup();
+        t
+    }
     fn nontrivial(&self, ops: &[String], _o: &[String]) -> bool {
         ops.iter().any(|o| o.len() > 150)
     }
